@@ -863,7 +863,9 @@ def part_binary(ctx, rep, seg):
     for _ in range(ctx.n(260, 10000)):
         diff, hunks, ext, kind = gen_diff(rng)
         markers = rng.random() < 0.2
-        lo = 14 + (2 if markers else 0)            # text width 2 on both sides
+        # the narrowest width that fits the gutters of this diff and leaves two text columns on both sides
+        nfw_ = max(number_field_widths(dict(hunks=hunks_of(diff))))
+        lo = 2 * (nfw_ + 1 + (1 if markers else 0) + 2)
         r = rng.random()
         width = rng.randrange(lo, lo + 10) if r < 0.3 else rng.randrange(lo + 10, 140)
         wml = rng.choice(["0", "1", "2", "2", "5", "unlimited", "unlimited"])
@@ -906,6 +908,7 @@ def part_binary(ctx, rep, seg):
         if rc == 0:
             text = ANSI_RE.sub("", out.decode("utf-8", "replace"))
             rows = [r for r in text.split("\n") if DELIM in r]
+            case["_out"] = text
         decoded.append(rows)
     seg.many([r for rows in decoded for r in rows])
     for case, (rc, out, err), rows in zip(cases, results, decoded):
@@ -1003,6 +1006,20 @@ def oracle_binary(ctx, rep, seg, case, rc, err, rows):
     nfw = number_field_widths(case)
     pl_, pr_ = panel_widths(case)
     mk_ = 1 if case["markers"] else 0
+    if min(pl_, pr_) - max(nfw) - 1 - mk_ < 1:
+        # Below "the narrowest width that fits the number gutters": a gutter (number field, delimiter,
+        # marker) fills a whole panel, no text column is left and delta cuts inside the gutter itself. The
+        # statement is not made for such widths; what remains is: it terminates (checked above) and no
+        # row of the output is wider than --width.
+        rep.count("binary:gutter-leaves-no-text-column")
+        rep.case(key=key, nontrivial=False)
+        for r in case.get("_out", "\n".join(rows)).split("\n"):
+            w_ = sum(w for _, w in seg.one(r))
+            if w_ > width:
+                viol(rep, "sbs:row-wider-than-width:gutter-leaves-no-text-column",
+                     f"row is {w_} columns wide, --width {width}", dict(replay, row=r))
+                return
+        return
     rowinfo = []
     for r in rows:
         left, right, total, exact = split_panels(seg, r, width)
@@ -1160,8 +1177,9 @@ def replay(ctx, rep, obj):
     if op == "delta --side-by-side":
         rc, out, err = limited_run_delta(ctx, case["args"], case["diff"].encode("utf-8"), 15)
         rows = []
+        text_out = ANSI_RE.sub("", out.decode("utf-8", "replace")) if rc == 0 else ""
         if rc == 0:
-            rows = [r for r in ANSI_RE.sub("", out.decode("utf-8", "replace")).split("\n") if DELIM in r]
+            rows = [r for r in text_out.split("\n") if DELIM in r]
         seg.many(rows)
         hunks = hunks_of(case["diff"])
         a = case["args"]
@@ -1171,7 +1189,7 @@ def replay(ctx, rep, obj):
                     a[a.index("--wrap-right-prefix-symbol") + 1])
         c2 = dict(op=op, diff=case["diff"], hunks=hunks, ext="?", kind="zw" if ZW in case["diff"] else "mixed",
                   width=case["width"], wrap_max_lines=a[a.index("--wrap-max-lines") + 1], extra=a, syms=syms,
-                  markers="--keep-plus-minus-markers" in a, args=a)
+                  markers="--keep-plus-minus-markers" in a, args=a, _out=text_out)
         oracle_binary(ctx, rep, seg, c2, rc, err.decode("utf-8", "replace"), rows)
     elif "request" in case:
         req = case["request"]
